@@ -10,11 +10,20 @@
   A real array is a complex one with zero imaginary parts, so every statement covers both dtypes.
 -/
 import Scico.Proofs.AutogradDeriv
+import Scico.Proofs.AutogradComplex
 
 namespace Scico.Props.C07
 open Scico Scico.Autograd
 
 variable {n m k : Nat}
+
+/-- The model's complex scalars are Mathlib's `ℂ` (ring isomorphism `cxEquiv`, compatible with
+    conjugation), and the two pairings are the usual `Re Σ conj(gᵢ)dᵢ` and `Re Σ jgᵢdᵢ` of `ℂⁿ`. -/
+theorem C07_pairings_are_complex (g d : CVec ℝ n) :
+    reInner g d = (∑ i, (starRingEnd ℂ) (cxEquiv (g i)) * cxEquiv (d i)).re ∧
+    reBdot g d = (∑ i, cxEquiv (g i) * cxEquiv (d i)).re ∧
+    (∀ z : Cx ℝ, cxEquiv z.conj = (starRingEnd ℂ) (cxEquiv z)) :=
+  ⟨reInner_complex g d, reBdot_complex g d, cxEquiv_conj⟩
 
 /-! ## the conjugating wrappers -/
 
